@@ -343,9 +343,19 @@ func (p *Path) fmtArg(verb byte, v Value) *Str {
 		}
 		// error / Stringer
 		if t, isT := ifc.V.(*Term); isT && !t.isConst {
+			if p.cfg.NumTokens && verb == 'd' && t.sort.K == SBV {
+				// the decimal digits of a symbolic number: ONE string element carrying the 64-bit value
+				// (strconv.ParseUint maps it back; the digit codec itself is trusted, not encoded)
+				return &Str{b: []*Term{p.e.ts.Resize(t, 64, isSignedT(ifc.T))}}
+			}
 			// formatting a symbolic number (e.g. a time.Duration through its String method)
 			// would fork on every digit: the text is opaque instead
 			return &Str{b: []*Term{e.byteConst['?']}, opaque: true}
+		}
+		if t, isT := ifc.V.(*Term); isT && t.isConst && t.sort.K == SBV && (verb == 'd' || verb == 'v') && !isSignedT(ifc.T) && basicOf(ifc.T) != nil && ifc.T.Underlying() == basicOf(ifc.T) {
+			if _, hasString := ifc.T.(*types.Named); !hasString || p.safeLookup(ifc.T, "String") == nil {
+				return e.strOf(fmt.Sprintf("%d", t.u)) // unsigned types print unsigned
+			}
 		}
 		if verb == 's' || verb == 'v' || verb == 'q' {
 			if m := p.safeLookup(ifc.T, "Error"); m != nil && verb != 'd' {
@@ -388,6 +398,11 @@ func (p *Path) fmtArg(verb byte, v Value) *Str {
 			}
 		}
 		if x.sort.K == SBV && (verb == 'd' || verb == 'v') {
+			if p.cfg.NumTokens && verb == 'd' {
+				// the decimal digits of a symbolic number: ONE string element carrying the 64-bit value
+				// (strconv.ParseUint maps it back; the digit codec itself is trusted, not encoded)
+				return &Str{b: []*Term{p.e.ts.Resize(x, 64, false)}}
+			}
 			// a term the path condition pins to one value formats like that value
 			if v, ok := p.uniqueValue(x); ok {
 				c := p.e.ts.BV(x.sort.W, v)
